@@ -9,6 +9,7 @@ import gc
 import io
 import json
 import os
+import re
 import subprocess
 import sys
 import warnings
@@ -39,7 +40,8 @@ ASSUMPTIONS = [
     'interpreted as a path or URL; defuse/allow/block keep their defaults, no DTD, no network',
     'location hints in the documents are relative names that do not exist (nowhere.xsd, or the corpus file\'s own '
     'schema name resolved against the working directory), so hinted loading fails fast and nothing is fetched; the '
-    'hint calls use schema objects of their own; a hint call that fails exactly like its plain counterpart is '
+    'hint calls use schema objects of their own and are made for the unfaulted document and for every document whose '
+    'location hint values differ from it (the readers of the hints see the same input otherwise); a hint call that fails exactly like its plain counterpart is '
     'reported under the plain call\'s key only',
     'lazy means XMLResource(source, lazy=True) (lazy depth 1, thin); other lazy depths are property C06',
     '"terminates" means within 20 s per document (all calls together), 120 s per limit-sweep process and 900 s for the '
@@ -122,6 +124,7 @@ def load_doc(docid):
         entry['base_bad'] = {(b[0], b[1], b[2]) for b in bad}
         hcalls, hbad, _hl, _hv = judge_hints(entry['data'], entry['hint_schemas'], _wf, bad)
         entry['hbase'] = (hcalls, hbad)
+        entry['hint_values'] = hint_values(entry['data'])
         entry['base_bad'] |= {(b[0], b[1], b[2]) for b in hbad}
     _docs[docid] = entry
     gc.collect()
@@ -226,14 +229,24 @@ HINT_PLAIN = {'m.is_valid': 'is_valid', 'm.iter_errors': 'iter_errors', 'm.to_di
               'get_locations': 'resource', 'get_locations_all': 'resource'}
 
 
-def judge_hints(text, schemas, wf, main_bad):
+HINT_VALUE = re.compile(rb'chemaLocation\s*=\s*("[^"]*"|\'[^\']*\')')
+
+
+def hint_values(data):
+    """The location hint attribute values of a byte string, in document order (no parsing: works on garbled input)."""
+    return HINT_VALUE.findall(data)
+
+
+def judge_hints(text, schemas, wf, main_bad, base_values=None):
     """The calls that read xsi:schemaLocation / xsi:noNamespaceSchemaLocation, for documents that carry one:
     module-level xmlschema.is_valid / iter_errors / to_dict(validation='lax') with the schema object (location
     hints are on by default there), schema.iter_errors / decode(lax) with use_location_hints=True, and
     XMLResource.get_locations() (root only and whole document); eager and lazy.  Same oracle as judge_document.
-    Returns (calls, bad, labels, vector); no call is made when the document has no such attribute."""
+    Returns (calls, bad, labels, vector).  No call is made when the document has no such attribute, or when its
+    hint values are exactly those of the unfaulted document (base_values; the unfaulted document itself is judged
+    with base_values=None): the readers of the hints see the same input there."""
     data = text.encode('utf-8') if isinstance(text, str) else text
-    if not HINT_CALLS_ON or HINT_MARK not in data:
+    if not HINT_CALLS_ON or HINT_MARK not in data or hint_values(data) == base_values:
         return 0, [], [], ''
     if isinstance(text, str):
         def mk():
@@ -321,7 +334,7 @@ def run_document(acc, prefix, text, entry, case, sigkind, timeout=20.0):
     try:
         with acc.guard(timeout):
             calls, bad, labels, vector, wf = judge_document(text, entry['schemas'])
-            hcalls, hbad, hlabels, hvector = judge_hints(text, entry['hint_schemas'], wf, bad)
+            hcalls, hbad, hlabels, hvector = judge_hints(text, entry['hint_schemas'], wf, bad, entry['hint_values'])
     except CaseTimeout:
         acc.ev()
         acc.out('HANG')
@@ -711,7 +724,7 @@ def replay(case):
         text = d[:case['off']] + bytes([case['byte']]) + d[case['off'] + 1:]
         prefix = 'C11|subst|%s|off=%d|byte=%02X' % (entry['id'], case['off'], case['byte'])
     calls, bad, _labels, _vector, wf = judge_document(text, entry['schemas'])
-    hcalls, hbad, _hl, _hv = judge_hints(text, entry['hint_schemas'], wf, bad)
+    hcalls, hbad, _hl, _hv = judge_hints(text, entry['hint_schemas'], wf, bad, entry['hint_values'])
     bad = [b for b in bad if (b[0], b[1], b[2]) not in entry['base_bad']]
     hbad = [b for b in hbad if (b[0], b[1], b[2]) not in entry['base_bad']]
     return discrepancies(prefix, bad, calls) + discrepancies(prefix + '|hints', hbad, hcalls)
